@@ -153,3 +153,44 @@ impl<'de> Deserializer<'de> for StubDe128 {
     serde::forward_to_deserialize_any! { bool i8 i16 i32 i64 i128 u8 u16 u32 u64 u128 f32 f64 char str string bytes byte_buf option unit unit_struct
         seq tuple tuple_struct map struct enum identifier ignored_any }
 }
+
+/// A deserializer that answers `deserialize_newtype_struct` the way non-self-describing "sequence" formats and
+/// `serde::de::value::SeqDeserializer` may: by handing the visitor a ONE-ELEMENT SEQUENCE (`visit_seq`).  A visitor that
+/// accepts this path must still run the constructor on the element.
+#[derive(Clone, Copy)]
+pub struct StubDeSeq<'de> { pub ev: Ev<'de> }
+pub struct SeqEv<'de> { ev: Ev<'de>, done: bool }
+impl<'de> SeqAccess<'de> for SeqEv<'de> {
+    type Error = E;
+    fn next_element_seed<T: DeserializeSeed<'de>>(&mut self, seed: T) -> Result<Option<T::Value>, E> {
+        if self.done { return Ok(None); }
+        self.done = true;
+        seed.deserialize(StubDe { ev: self.ev }).map(Some)
+    }
+    fn size_hint(&self) -> Option<usize> { Some(if self.done { 0 } else { 1 }) }
+}
+impl<'de> Deserializer<'de> for StubDeSeq<'de> {
+    type Error = E;
+    fn deserialize_any<V: Visitor<'de>>(self, v: V) -> Result<V::Value, E> { v.visit_seq(SeqEv { ev: self.ev, done: false }) }
+    fn deserialize_newtype_struct<V: Visitor<'de>>(self, _name: &'static str, v: V) -> Result<V::Value, E> { v.visit_seq(SeqEv { ev: self.ev, done: false }) }
+    serde::forward_to_deserialize_any! { bool i8 i16 i32 i64 i128 u8 u16 u32 u64 u128 f32 f64 char str string bytes byte_buf option unit unit_struct
+        seq tuple tuple_struct map struct enum identifier ignored_any }
+}
+
+/// RON-like option handling: `Option<T>` must be written explicitly (`Some(..)` / `None`); a bare value is NOT an option.
+/// (JSON and MessagePack treat every non-null value as `Some`, which is what `StubDe` models.)
+#[derive(Clone, Copy)]
+pub struct StubDeStrictOpt<'de> { pub ev: Ev<'de> }
+impl<'de> Deserializer<'de> for StubDeStrictOpt<'de> {
+    type Error = E;
+    fn deserialize_any<V: Visitor<'de>>(self, v: V) -> Result<V::Value, E> { StubDe { ev: self.ev }.deserialize_any(v) }
+    fn deserialize_option<V: Visitor<'de>>(self, v: V) -> Result<V::Value, E> {
+        match self.ev { Ev::None => v.visit_none(), Ev::SomeOf(p) => v.visit_some(StubDeStrictOpt { ev: p.ev() }), _ => Err(E) }
+    }
+    fn deserialize_newtype_struct<V: Visitor<'de>>(self, name: &'static str, v: V) -> Result<V::Value, E> {
+        unsafe { LAST_NEWTYPE_NAME = name; NEWTYPE_CALLS += 1; }
+        v.visit_newtype_struct(self)
+    }
+    serde::forward_to_deserialize_any! { bool i8 i16 i32 i64 i128 u8 u16 u32 u64 u128 f32 f64 char str string bytes byte_buf unit unit_struct
+        seq tuple tuple_struct map struct enum identifier ignored_any }
+}
